@@ -12,7 +12,9 @@ public API calls with faults interleaved.  After every operation:
                            (or explicit rejection after a dimension change)
   O4 split == whole        cACGMM segments vs one uninterrupted fit, bitwise
   O5 RNG conservation      operations with a given start do not draw
-  O6 no leaked global state  np.geterr / printoptions
+  O6 no leaked global state  np.geterr / printoptions / warning filters /
+                           sklearn config / scipy.special errstate / BLAS
+                           and OpenMP thread limits / errcall / recursion limit
   O7 late re-execution     a sample of the calls is repeated at the end of
                            the session: same result as the first time
 (+ O3-process-history: a sample of whole runs is repeated in a pristine
@@ -333,7 +335,31 @@ def _viol(world, oracle, idx, name, a, detail, **kw):
     world.violations.append(rec)
 
 
+class _caller_threads:
+    """Some sessions run with a caller-chosen BLAS thread limit of 2 (the
+    launcher's default is 1): a call must leave the limit as it found it
+    (O6).  Not for the scikit-learn wrapper (OpenMP reductions)."""
+
+    def __init__(self, world, name):
+        n = world.program.get('blas_threads')
+        self.n = n if n and name != 'binarygmm' else None
+
+    def __enter__(self):
+        if self.n:
+            seams.set_blas_threads(self.n)
+
+    def __exit__(self, *exc):
+        if self.n:
+            seams.set_blas_threads(1)
+        return False
+
+
 def run_op(world, idx, op):
+    with _caller_threads(world, op['op']):
+        return _run_op(world, idx, op)
+
+
+def _run_op(world, idx, op):
     name = op['op']
     if name == 'env.draws':
         np.random.uniform(size=op['k'])
@@ -635,7 +661,8 @@ def late_reexecution(world, limit=10):
     rng_end = seams.rng_get()
     for idx, name, a, rng0, digest0, label in items:
         seams.rng_set(rng0)
-        out = call(name, Ctx(world), a, None)
+        with _caller_threads(world, name):
+            out = call(name, Ctx(world), a, None)
         world.count('late_reexecutions')
         if out.kind != 'ok':
             continue
@@ -739,10 +766,12 @@ def generate(run_seed, tier='quick'):
     if g.coin(0.3):
         trainer_kwargs['cwmm'] = g.choice([{'max_concentration': 100},
                                            {'dimension': int(g.choice(dims))},
-                                           {'spline_markers': 300}])
+                                           {'spline_markers': 300},
+                                           {'max_concentration': 700}])
     if g.coin(0.2):
         trainer_kwargs['dist:watson'] = g.choice(
-            [{'max_concentration': 100}, {'dimension': int(g.choice(dims))}])
+            [{'max_concentration': 100}, {'dimension': int(g.choice(dims))},
+             {'max_concentration': 700}])
     if g.coin(0.15):
         trainer_kwargs['cbmm'] = {'max_concentration': 200.0}
     program_ops = []
@@ -863,9 +892,11 @@ def generate(run_seed, tier='quick'):
             final.append(follow)
     # indices moved: model references are by op index -> remap
     final = _remap_after_insert(program_ops, final)
+    rng_seed = int(rng.randint(2 ** 31))
     return {'prop': 'C20', 'mode': mode, 'dims': dims,
             'fault_kinds': fault_kinds, 'trainer_kwargs': trainer_kwargs,
-            'rng_seed': int(rng.randint(2 ** 31)), 'ops': final, 'tier': tier}
+            'rng_seed': rng_seed, 'ops': final, 'tier': tier,
+            'blas_threads': 2 if rng.uniform() < 0.15 else None}
 
 
 def _remap_after_insert(old_ops, new_ops):
